@@ -273,7 +273,12 @@ Proof.
   intros t. induction t as [t IHt] using json_size_ind. intros m Hm Hn.
   assert (IH : forall t' m', size t' < size t -> mode_rfn m' = false -> nodup_keys t' -> rel3 t' (W1 m' t') (W2 m' t')).
   { intros t' m' Hs Hm' Hn'. apply IHt; auto. }
-  destruct t as [| b | num | s | l | l]; try apply rel3_refl.
+  assert (Hleaf : forall v, is_leaf v -> rel3 v (W1 m v) (W2 m v)).
+  { intros v Hl. destruct m as [rfn kp search | rfn search parent kp | pk rfn search sel kp]; simpl in Hm; subst;
+      destruct v as [| b | num | s | l | l]; try contradiction; try apply rel3_refl; cbn [walk p_leaf];
+      try (apply scalar_rel; exact I).
+    unfold dollar_string. cbn [andb]. destruct (starts_with_dollar s); [apply rel3_refl | apply scalar_rel; exact I]. }
+  destruct t as [| b | num | s | l | l]; try (apply Hleaf; exact I).
   - (* array *)
     destruct m as [rfn kp search | rfn search parent kp | pk rfn search sel kp]; simpl in Hm; subst; simpl.
     + apply (arr_rel (size (JArr l)) IH); auto.
